@@ -194,6 +194,12 @@ def record(ck, tier, seed):
         if ln["ev"] == "BAD":
             ck.mismatch("concurrent/" + ln["what"].split(" with ")[0], ln)
     lines = [ln for ln in lines if ln["ev"] != "BAD"]
+    strangers = [ln for ln in lines if ln.get("identity") is not None]
+    if strangers:
+        # the failure tracker was keyed by something that is not the address of the client that sent the request
+        ck.mismatch("trace/tracker-keyed-by-something-else-than-the-client-address", {"identity": strangers[0]["identity"], "event": strangers[0],
+                    "clients": "10.0.0.1 and 2001:db8::b, ports vary"}, replay={"kind": "auth-record"})
+        return
     vf.write_ndjson(out, lines)
     shapes = [S([L("Bearer ", "secret")]), S([L("Bearer ", "wrong")])]
     kw = consts("jwt", "value", shapes, clients=("A", "B"), inflight=6, hist=False)
